@@ -238,6 +238,8 @@ def run(repo, rep, tier):
     early_hooks_rule(repo, rep)
     # what one request (indication) leaves behind: the callback thread that
     # delivers all later indications must survive any callback outcome
+    from .c02 import object_model_handlers_catch_both
+    object_model_handlers_catch_both(repo, rep, 'C17.R12')
     from .c16 import delivery_thread_survives
     delivery_thread_survives(repo, rep, rep.rule(
         'C17.R11', 'the delivery thread survives every indication (nothing '
